@@ -14,7 +14,9 @@
 //	         0.0.0.0 (udp/server: getOrCreateConn, peer table); `newconn` = the application calls Server.NewConn(peer);
 //	         only confirmable requests with behaviours that answer at once (every copy gets exactly one datagram)
 //
-// beh: pb (2.05 + payload = handler invocation number), pbe (4.04, no payload), none, sep (no
+// beh: hjm / hjr = the handler hijacks its request and re-uses it under another message ID and type, then answers like pb /
+// releases it to the pool at once and answers like none;
+// pb (2.05 + payload = handler invocation number), pbe (4.04, no payload), none, sep (no
 // response through the writer; a NON response is sent by `flush`), empty (code 0.00).
 // blk: the handler first writes a confirmable message of its own (blocks until it is acknowledged,
 // the reader loop is replaced) and then answers like pb; k copies arrive while it is blocked.
@@ -141,6 +143,17 @@ func (sc *scenario) handler(w *responsewriter.ResponseWriter[*udpclient.Conn], r
 	case "pbe":
 		_ = w.SetResponse(codes.NotFound, message.TextPlain, nil)
 	case "none":
+	case "hjm":
+		// the handler takes the request over and re-uses it (e.g. forwards it upstream under another message ID and type)
+		// before it answers like pb: reply and cache entry must still belong to the request as it ARRIVED
+		r.Hijack()
+		r.SetMessageID(int32((int(r.MessageID()) + 4097) & 0xffff))
+		r.SetType(message.NonConfirmable)
+		_ = w.SetResponse(codes.Content, message.TextPlain, bytes.NewReader([]byte(strconv.Itoa(n))))
+	case "hjr":
+		// the handler takes the request over and gives it back to the pool at once; it answers like none
+		r.Hijack()
+		w.Conn().ReleaseMessage(r)
 	case "sep":
 		sc.mu.Lock()
 		sc.sep = append(sc.sep, sepResp{tok, n})
